@@ -591,9 +591,12 @@ def pool(kind, rng):
         return ("msg", [("*ESR?", []), ("*STB?", [])], mav)
     if k < 88:
         return ("cond", "Operation" if w == "OPER" else "Questionable", rng.pick(WORDS16))
-    if k < 94:
+    if k < 93:
         return ("msg", [("STAT:%s:ENAB" % w, [rng.pick(WORDS16)])], mav)
-    if k < 97:
+    if k < 96:
+        # PRESet touches the OPERation / QUEStionable enables and filters only: *ESE and *SRE read back as written (seed C16-O)
+        return ("msg", [("STAT:PRES", []), ("*ESE?", []), ("*SRE?", []), ("*STB?", [])], mav)
+    if k < 98:
         return ("msg", [("SYST:ERR?", [])], mav)
     return ("msg", [("STAT:%s:EVEN?" % w, []), ("*STB?", [])], mav)
 
